@@ -29,6 +29,9 @@ pub struct AofEngine {
     
     /// Is background rewrite in progress?
     rewrite_in_progress: Arc<Mutex<bool>>,
+    
+    /// Database of the last logged command (None: nothing logged since start-up)
+    logged_db: Arc<Mutex<Option<usize>>>,
 }
 
 /// AOF configuration
@@ -89,6 +92,7 @@ impl AofEngine {
             config,
             last_fsync: Arc::new(Mutex::new(Instant::now())),
             rewrite_in_progress: Arc::new(Mutex::new(false)),
+            logged_db: Arc::new(Mutex::new(None)),
         }
     }
     
@@ -139,6 +143,34 @@ impl AofEngine {
         }
         
         Ok(())
+    }
+    
+    /// Append a command that runs in database `db`. The log is re-executed on one connection, so
+    /// a SELECT goes in front whenever the database differs from that of the previous logged
+    /// command (and in front of the first command after start-up).
+    pub fn append_command_in_db(&self, db: usize, command: &[RespFrame]) -> Result<()> {
+        if !self.config.enabled {
+            return Ok(());
+        }
+        
+        let select_needed = {
+            let mut logged_db = self.logged_db.lock().unwrap();
+            if *logged_db != Some(db) {
+                *logged_db = Some(db);
+                true
+            } else {
+                false
+            }
+        };
+        
+        if select_needed {
+            self.append_command(&[
+                RespFrame::BulkString(Some(Arc::new(b"SELECT".to_vec()))),
+                RespFrame::BulkString(Some(Arc::new(db.to_string().into_bytes()))),
+            ])?;
+        }
+        
+        self.append_command(command)
     }
     
     /// Append a command to the AOF
@@ -258,6 +290,7 @@ impl Clone for AofEngine {
             config: self.config.clone(),
             last_fsync: Arc::clone(&self.last_fsync),
             rewrite_in_progress: Arc::clone(&self.rewrite_in_progress),
+            logged_db: Arc::clone(&self.logged_db),
         }
     }
 }
